@@ -12,7 +12,7 @@
    starting file and after every operation of every generated sequence (function EditInv). *)
 From Coq Require Import Permutation.
 From Verif.Base Require Import Bytes.
-From Verif.Modfile Require Import EditModel EditOps EditSpec EditProofsTyped EditProofsCoherent EditProofsCleanup EditProofsAddLine EditProofsAdd EditProofsUpsert EditProofsSeq EditProofsBlocks EditProofsSetRequire.
+From Verif.Modfile Require Import EditModel EditOps EditSpec EditProofsTyped EditProofsCoherent EditProofsCleanup EditProofsAddLine EditProofsAdd EditProofsUpsert EditProofsSeq EditProofsBlocks EditProofsSetRequire EditProofsExact EditProofs2Blocks EditProofs2Settable EditProofs2Sri EditProofs2Inv EditProofs2Check.
 
 (* After File.Cleanup no typed list holds a cleared placeholder entry. *)
 Theorem C15_no_placeholders_after_cleanup : forall f,
@@ -147,20 +147,20 @@ Theorem C15_coherent_set_use : forall f (l : list (str * str)) f',
 Proof. exact set_use_coherent. Qed.
 Print Assumptions C15_coherent_set_use.
 
-(* coherent_invariant: one statement for EVERY operation except SetRequire and
-   SetRequireSeparateIndirect ([coh_op2]), and for every sequence of such operations. *)
-Theorem C15_coherent_invariant_but_set_require : forall o f f',
+(* Coherent ALONE (no side condition) is preserved by every operation except SetRequire and
+   SetRequireSeparateIndirect ([coh_op2]), and by every sequence of such operations. *)
+Theorem C15_coherent_alone_invariant : forall o f f',
   coh_op2 o = true -> valid_args o = true -> Coherent f ->
   apply o f = ROk f' \/ apply o f = RErr f' -> Coherent f'.
 Proof. exact coherent_invariant_but_set_require. Qed.
-Print Assumptions C15_coherent_invariant_but_set_require.
+Print Assumptions C15_coherent_alone_invariant.
 
-Theorem C15_coherent_invariant_sequences : forall ops f errs f',
+Theorem C15_coherent_alone_invariant_sequences : forall ops f errs f',
   Coherent f ->
   Forall (fun o => coh_op2 o = true /\ valid_args o = true) ops ->
   run_ops ops f = RunOk errs f' -> Coherent f'.
 Proof. exact run_ops_coherent_but_set_require. Qed.
-Print Assumptions C15_coherent_invariant_sequences.
+Print Assumptions C15_coherent_alone_invariant_sequences.
 
 (* SetRequire, outside one corner.  [RequireSettable f]: on the line of every live require
    entry, setIndirect reaches whichever marking is requested. *)
@@ -172,7 +172,7 @@ Print Assumptions C15_coherent_set_require.
 
 (* The corner is real: "require a.b/c v1.0.0 // indirect; indirect; x", SetRequire with
    indirect = false: the typed entry says direct, the line still says indirect.  Replayed on
-   the implementation (report). *)
+   the implementation (finding K9, notes/replays/K9.json). *)
 Theorem C15_coherent_set_require_refuted :
   coherentb corner_file = true /\
   exists f', set_require corner_file [(B "a.b/c", B "v1.0.0", false)] = Some f' /\ coherentb f' = false
@@ -181,16 +181,75 @@ Theorem C15_coherent_set_require_refuted :
 Proof. exact set_require_coherent_refuted. Qed.
 Print Assumptions C15_coherent_set_require_refuted.
 
-(* NOT PROVED (the full target):
+(* SetRequireSeparateIndirect (block discovery, insertBlock / ensureBlock incl. the conversion
+   of a line into a block, the rewriting loop with moveReq, the new requirements, SortBlocks).
+   Two side conditions besides [RequireSettable]:
+   [BlockIdsOk s] (Modfile/EditProofs2Blocks.v): the identities [hb_id] of the blocks of the
+   tree are pairwise different and below the allocation counter [nbid s].  The model addresses
+   blocks by identity where Go compares *LineBlock pointers; Go's pointers are distinct by
+   construction, the decoder of the correspondence run numbers the blocks 0,1,2,... *)
+Theorem C15_coherent_set_require_separate_indirect : forall f l f',
+  distinct_paths (map req_path l) = true -> Coherent f -> BlockIdsOk (fsyn f) -> RequireSettable f ->
+  set_require_separate_indirect f l = Some f' -> Coherent f'.
+Proof. exact set_require_separate_indirect_coherent. Qed.
+Print Assumptions C15_coherent_set_require_separate_indirect.
 
-   coherent_invariant : forall o f f', Coherent f -> valid_args o = true ->
-                        apply o f = ROk f' -> Coherent f'
-     is proved above for 36 of the 37 operations (File and WorkFile); for SetRequire under
-     the extra hypothesis [RequireSettable], without which it is false of the code
-     (C15_coherent_set_require_refuted).  Open: SetRequireSeparateIndirect (moveReq copies
-     lines into other blocks, blocks are created and lines converted): the invariant is
-     evaluated on every generated case instead (EditInv: coherentb after each operation;
-     0 failures).  What IS proved for it: the exact-set theorem of C16 and the comment
-     theorem of C08.
+(* The side conditions are invariants themselves.  [HeapSettable s]: for EVERY line of the heap,
+   written on its end-of-line comments only ([suf l] = the Suffix comment texts of l):
+   setIndirect, applied to these comments, yields the marking it is asked for
+   ([suf_settable], [is_ind_suf] / [set_ind_suf] = isIndirect / setIndirect on the comment list).
+   It implies RequireSettable, and setIndirect preserves it: *)
+Theorem C15_set_indirect_keeps_settable : forall sfx b,
+  (forall b', is_ind_suf (set_ind_suf sfx b') = b') ->
+  (forall b', is_ind_suf (set_ind_suf (set_ind_suf sfx b) b') = b').
+Proof. exact suf_settable_set. Qed.
+Print Assumptions C15_set_indirect_keeps_settable.
 
+Theorem C15_settable_is_about_suffix_comments : forall l,
+  (forall v b, is_indirect (set_indirect_line (set_version_line l v) b) = b) <->
+  (forall b, is_ind_suf (set_ind_suf (c_suffix (hl_com l)) b) = b).
+Proof. exact settable_iff. Qed.
+Print Assumptions C15_settable_is_about_suffix_comments.
+
+(* coherent_invariant: ALL 37 operations of File and WorkFile.  The invariant is Coherent
+   together with the two side conditions; an operation that returns (nil or an error) from a
+   state satisfying it ends in a state satisfying it. *)
+Theorem C15_coherent_invariant : forall o f f',
+  valid_args o = true ->
+  Coherent f -> BlockIdsOk (fsyn f) -> HeapSettable (fsyn f) ->
+  apply o f = ROk f' \/ apply o f = RErr f' ->
+  Coherent f' /\ BlockIdsOk (fsyn f') /\ HeapSettable (fsyn f').
+Proof. exact coherent_invariant. Qed.
+Print Assumptions C15_coherent_invariant.
+
+(* ... hence every sequence of operations with valid arguments that does not panic. *)
+Theorem C15_coherent_invariant_sequences : forall ops f errs f',
+  Coherent f -> BlockIdsOk (fsyn f) -> HeapSettable (fsyn f) ->
+  Forall (fun o => valid_args o = true) ops ->
+  run_ops ops f = RunOk errs f' ->
+  Coherent f' /\ BlockIdsOk (fsyn f') /\ HeapSettable (fsyn f').
+Proof. exact run_ops_coherent. Qed.
+Print Assumptions C15_coherent_invariant_sequences.
+
+(* The executable check [coherentb] that the correspondence run evaluates on the parse of
+   every starting file and after every operation is sound for Coherent; [block_ids_okb] and
+   [heap_settableb] are executable mirrors of the side conditions. *)
+Theorem C15_coherentb_sound : forall f, coherentb f = true -> Coherent f.
+Proof. exact coherentb_sound. Qed.
+Print Assumptions C15_coherentb_sound.
+
+Theorem C15_side_conditions_checkable : forall s,
+  (block_ids_okb s = true -> BlockIdsOk s) /\ (heap_settableb s = true -> HeapSettable s).
+Proof. intros s. split; [apply block_ids_okb_sound | apply heap_settableb_sound]. Qed.
+Print Assumptions C15_side_conditions_checkable.
+
+(* The hypotheses are satisfiable (a file with a duplicated requirement), and the file of
+   finding K9 is coherent but not HeapSettable: the side condition excludes exactly that corner. *)
+Example C15_invariant_nonvacuous :
+  Coherent example_dup_file /\ BlockIdsOk (fsyn example_dup_file) /\ HeapSettable (fsyn example_dup_file).
+Proof. destruct edit_inv_example as [A Bq C]. auto. Qed.
+Example C15_k9_file_excluded : heap_settableb (fsyn corner_file) = false /\ coherentb corner_file = true.
+Proof. exact corner_file_not_settable. Qed.
+
+(* NOT PROVED:
    typed_equals_reparse needs the parser/printer round trip (C02/C20, other files). *)
